@@ -37,6 +37,10 @@ Definition dec (n : Z) : list Z := dec_fuel 40 n.
 
 Definition str_eqb := list_eqb.
 
+(* s[0] == k: the rest of s *)
+Definition strip_char (k : Z) (s : list Z) : option (list Z) :=
+  match s with c :: t => if c =? k then Some t else None | [] => None end.
+
 (* ------------------------------------------------------------------ float64, as far as needed *)
 
 (* A finite non-negative float64 is a pair (m, e) standing for m * 2^e.  [rnd n d] rounds the rational
@@ -48,6 +52,8 @@ Definition scale2 (n d e : Z) : Z * Z := if e <? 0 then (n * 2 ^ (- e), d) else 
 
 Definition rnd (n d : Z) : fl :=
   if n <=? 0 then (0, 0) else
+  if (n mod d =? 0) && (n / d <? 2 ^ 53) then (n / d, 0)     (* integers below 2^53 are representable *)
+  else
   let e0 := Z.log2 n - Z.log2 d - 52 in
   let '(n0, d0) := scale2 n d e0 in
   let e1 := if n0 / d0 <? 2 ^ 52 then e0 - 1 else e0 in
@@ -186,10 +192,10 @@ Fixpoint pd_loop (fuel : nat) (d : Z) (s : list Z) : option Z :=
           | Some (v, s1) =>
               let pre := negb (Nat.eqb (length s) (length s1)) in
               let '(f, scale, s2, post) :=
-                match s1 with
-                | 46 :: t => let '(f, sc, s2) := leading_fraction 0 (1, 0) false t in
-                             (f, sc, s2, negb (Nat.eqb (length t) (length s2)))
-                | _ => (0, (1, 0), s1, false)
+                match strip_char 46 s1 with
+                | Some t => let '(f, sc, s2) := leading_fraction 0 (1, 0) false t in
+                            (f, sc, s2, negb (Nat.eqb (length t) (length s2)))
+                | None => (0, (1, 0), s1, false)
                 end in
               if negb pre && negb post then None else
               let '(u, s3) := span (fun c => negb (num_char c)) s2 in
@@ -212,10 +218,9 @@ Fixpoint pd_loop (fuel : nat) (d : Z) (s : list Z) : option Z :=
   end.
 
 Definition parse_duration (s : list Z) : option Z :=
-  let '(neg, s1) := match s with
-                    | 45 :: t => (true, t)
-                    | 43 :: t => (false, t)
-                    | _ => (false, s)
+  let '(neg, s1) := match strip_char 45 s with
+                    | Some t => (true, t)
+                    | None => match strip_char 43 s with Some t => (false, t) | None => (false, s) end
                     end in
   if str_eqb s1 [48] then Some 0 else
   match s1 with
@@ -231,18 +236,18 @@ Definition parse_duration (s : list Z) : option Z :=
 
 (* regexp ^(-?[0-9]+)d : (text of group 1, rest after the match) *)
 Definition re_days (s : list Z) : option (list Z * list Z) :=
-  let '(sg, t) := match s with 45 :: t => ([45], t) | _ => ([], s) end in
+  let '(sg, t) := match strip_char 45 s with Some t => ([45], t) | None => ([], s) end in
   let '(ds, r) := span is_digit t in
-  match ds, r with
-  | _ :: _, 100 :: rest => Some (sg ++ ds, rest)
+  match ds, strip_char 100 r with
+  | _ :: _, Some rest => Some (sg ++ ds, rest)
   | _, _ => None
   end.
 
 (* strconv.ParseInt(m, 10, 64) with the error dropped: out-of-range values are clamped *)
 Definition parse_int_clamp (m : list Z) : Z :=
-  match m with
-  | 45 :: ds => let v := digits_val 0 ds in if v >? two63 then - two63 else - v
-  | ds => let v := digits_val 0 ds in if v >? two63 - 1 then two63 - 1 else v
+  match strip_char 45 m with
+  | Some ds => let v := digits_val 0 ds in if v >? two63 then - two63 else - v
+  | None => let v := digits_val 0 m in if v >? two63 - 1 then two63 - 1 else v
   end.
 
 Definition dur_unmarshal (s : list Z) : option Z :=
